@@ -14,7 +14,11 @@ RULE = ('T in 1..4 (quick) / 1..8 (thorough); h, p, c, K, gamma, demand mean/sd 
         'the normal with the moments of X, mirror-image custom-discrete pmfs); initial inventory level integer / fractional / occasionally outside the grid; modes: optimisation on the '
         'default grid (incl. range-doubling restarts, forced by large K in ~10%), optimisation on a user x_range, evaluation of a '
         'user policy matrix (base-stock, (s,S), never-order); plus a malformed stream (ValueError cases). Every optimisation case is '
-        'also fed back in evaluation mode. non-trivial = T >= 2 and (some s_t < S_t or the S_t are not all equal); '
+        'also fed back in evaluation mode. Second stream (24 quick / 120 thorough cases, oracles only, not compared with the model): T in 2..5, normal demand mean 8..20, '
+        'default spreads, optimisation mode (25% on a user x_range that must be doubled), period-varying fixed cost with profile rise / spike / zig-zag '
+        '(a fixed cost worth 1.5..4 periods of holding one period\'s demand after periods with K = 0..10, so that K_t < gamma_t K_{t+1} and s_t lies far above '
+        'S_underbar_t), falling, flat, or within 0.25 of gamma_t K_{t+1}; h and the demand mean mildly period-varying in 30%; myopic_bounds is held against the DP '
+        'period by period also where Veinott\'s conditions fail (S_overbar always, s_overbar wherever a number is reported, the lower bounds on condition-satisfying tails). non-trivial = T >= 2 and (some s_t < S_t or the S_t are not all equal); '
         'distinct = distinct (normalised parameters, demand, grid, mode).')
 
 SIG_PRICING = 'finite_horizon_dp|one-period-cost-uses-normal_loss-for-non-normal-demand_source'
@@ -173,6 +177,48 @@ def gen_case(rng, tmax, malformed_rate=0.08):
                 c['mode'] = 'eval'; c['xr'] = [-15, 35]; c['policy'] = [dict(type='basestock', S=9)] * T
             if k == 'oul_no_xr': c['drop_xr'] = True
             else: c['policy'] = list(c['policy']); c['policy'][rng.randrange(T)] = dict(type='basestock', S=c['xr'][1] + rng.randint(1, 5))
+    return c
+
+
+def gen_myopic_case(rng, tmax, malformed_rate=0.0):
+    """second stream: instances on which myopic_bounds makes claims that the DP can test sharply -- normal demand, benign
+    discretisation (default spreads, optimisation mode, no terminal cost unless undiscounted), and a PERIOD-VARYING fixed cost:
+    rising (K_t < gamma_t K_{t+1}: the optimal policy orders early to dodge the next fixed cost, s_t far above S_underbar_t, and
+    s_overbar_t is documented as invalid/None), a single spike, zig-zag, falling, or stationary; rises from barely above
+    gamma_t K_{t+1} - K_t = 0 to several periods' worth of holding cost"""
+    T = rng.randint(2, max(2, min(tmax, 5)))
+    sc = lambda v: ['scalar', v] if rng.random() < 0.5 else ['list', ([0.0] + [v] * T) if rng.random() < 0.4 else [v] * T]
+    ls = lambda vals: ['list', ([0.0] + vals) if rng.random() < 0.4 else vals]
+    h = _r(rng, 0.5, 2); mean = _r(rng, 8, 20, 2); sd = _r(rng, 1, max(1, min(3, mean / 4)), 2)
+    prof = rng.choice(['rise', 'rise', 'rise', 'spike', 'spike', 'zigzag', 'zigzag', 'fall', 'flat', 'barely'])
+    big = lambda: _r(rng, 1.5, 4) * h * mean          # a fixed cost worth 1.5 .. 4 periods of holding one period's demand
+    if prof == 'rise':
+        k0 = rng.choice([0.0, 0.0, _r(rng, 1, 10)]); j = rng.randint(1, T - 1); kb = big()
+        Kl = [k0 if t < j else kb + (t - j) * rng.choice([0.0, 0.0, 5.0]) for t in range(T)]
+    elif prof == 'spike':
+        k0 = rng.choice([0.0, 0.0, _r(rng, 1, 10)]); j = rng.randint(1, T - 1); Kl = [k0] * T; Kl[j] = big()
+    elif prof == 'zigzag':
+        a, b = rng.choice([0.0, _r(rng, 1, 10)]), big(); f = rng.randint(0, 1); Kl = [b if (t + f) % 2 else a for t in range(T)]
+    elif prof == 'fall':
+        Kl = sorted([_r(rng, 0, 60) for _ in range(T)], reverse=True)
+    elif prof == 'flat':
+        Kl = [rng.choice([0.0, _r(rng, 1, 40)])] * T
+    else:                                                    # K_t within a hair of gamma_t K_{t+1}, either side
+        k0 = _r(rng, 8, 40); Kl = [k0 + t * rng.choice([-0.25, 0.0, 0.25, 1.0]) for t in range(T)]
+    gam = rng.choice([1.0, 1.0, 0.9, 0.95])
+    c = dict(T=T, h=sc(h), p=sc(_r(rng, 6, 20)), c=sc(rng.choice([0.0, _r(rng, 0, 2)])), K=ls([float(v) for v in Kl]),
+             gamma=sc(gam) if rng.random() < 0.7 else ls([rng.choice([1.0, 0.9, 0.95]) for _ in range(T)]),
+             malformed=None, d_spread=4, s_spread=5, mode='opt', IL=float(rng.randint(-3, 12)), myopic_stream=prof)
+    if rng.random() < 0.3:                                    # mildly period-varying holding / stockout cost
+        c['h'] = ls([max(0.25, h + rng.choice([-0.25, 0.0, 0.25])) for _ in range(T)])
+    if norm_list(c['gamma'], T)[T] != 1.0 or rng.random() < 0.5: c['hT'], c['pT'] = 0.0, 0.0
+    else: c['hT'], c['pT'] = _r(rng, 0, 2), _r(rng, 0, 10)
+    if rng.random() < 0.3:                                    # mean drifting by a fraction of a standard deviation
+        c['demand'] = dict(kind='normal', mean=ls([mean + rng.choice([-0.5, 0.0, 0.5]) for _ in range(T)]), sd=sc(sd))
+    else:
+        c['demand'] = dict(kind='normal', mean=sc(mean), sd=sc(sd))
+    if rng.random() < 0.25:
+        c['mode'] = 'optgrid'; c['xr'] = [-rng.randint(15, 30), rng.randint(10, 40)]      # user range, usually doubled at least once
     return c
 
 
@@ -483,13 +529,24 @@ def oracle(c, r, chk, extra_eval=True):
 
 
 def myopic_oracle(c, r, tb, chk):
-    """S_underbar - 1 <= S_t <= S_overbar + 1 where Veinott's conditions hold and the DP's discretisation is benign"""
+    """every bound that myopic_bounds CLAIMS brackets the optimal level of the DP (to within the grid slack).
+    * Veinott's conditions hold on the whole horizon (K_t >= gamma_t K_{t+1}, S_underbar_t <= S_overbar_{t+1}) and the DP's
+      discretisation is benign: S_underbar - 1 <= S_t <= S_overbar + 1 and s_underbar - 2 <= s_t <= s_overbar + 2 in every period.
+    * They fail in some period (fixed cost that rises, K_t < gamma_t K_{t+1}; demand that drops): what remains a claim is
+      checked period by period:
+        - S_t <= S_overbar_t + 1 in every period: ordering above S_overbar_t costs G_t(y) - G_t(S_underbar_t) > gamma_t K_{t+1}
+          more now and saves at most K_{t+1} later (f_{t+1}(x) <= K_{t+1} + f_{t+1}(y) for x <= y holds with no hypothesis);
+        - s_t <= s_overbar_t + 2 in every period in which myopic_bounds REPORTS an s_overbar_t. Documented: None (nan) exactly
+          in the periods with K_t - gamma_t K_{t+1} < 0 ("invalid in these cases"), and where K_t >= gamma_t K_{t+1} holds in
+          period t the same one-step argument proves the bound, whatever the other periods look like. A number reported in a
+          period where the fixed cost rises is a claim like any other and is held against the DP;
+        - the lower bounds S_underbar_t - 1 <= S_t, s_underbar_t - 2 <= s_t in the periods t whose tail t..T satisfies
+          Veinott's conditions (rows t..T of the DP do not depend on the earlier periods)."""
     from stockpyl.finite_horizon import myopic_bounds
     T = c['T']; bad = []
     if c['mode'] == 'eval' or c['demand']['kind'] != 'normal' or r['warn']: return bad
     g = tb['g']; K = tb['K'] + [0.0]
     if not (g[T] == 1.0 or (c['hT'] == 0 and c['pT'] == 0)): chk.count('myopic=skipped-terminal-discount'); return bad
-    if any(K[t] < g[t] * K[t + 1] for t in range(1, T + 1)): chk.count('myopic=skipped-K-increasing'); return bad
     d = c['demand']
     try:
         with warnings.catch_warnings():
@@ -500,15 +557,29 @@ def myopic_oracle(c, r, tb, chk):
         chk.count('myopic=not-applicable-ValueError'); return bad
     except Exception as e:
         return [('myopic_bounds-raises-' + exc_kind(e), str(e)[:200])]
-    if any(Su[t] > So[t + 1] for t in range(1, T)): chk.count('myopic=skipped-S_underbar>S_overbar_next'); return bad
-    chk.count('myopic=checked')
+    if any(len(v) != T + 1 for v in (Su, So, su, so)):
+        return [('myopic_bounds-shape', 'output arrays of lengths %r for T=%d' % ([len(v) for v in (Su, So, su, so)], T))]
+    k_rises = [t for t in range(1, T + 1) if K[t] < g[t] * K[t + 1]]
+    unreach = [t for t in range(1, T) if Su[t] > So[t + 1]]
+    full = not k_rises and not unreach
+    if full: chk.count('myopic=checked'); tag = ''
+    elif k_rises: chk.count('myopic=checked-per-period(K_t<gamma_t*K_t+1 in some period)'); tag = '|fixed-cost-rises'
+    else: chk.count('myopic=checked-per-period(S_underbar>S_overbar_next)'); tag = '|S_underbar>S_overbar_next'
     for t in range(1, T + 1):
-        if not (Su[t] - 1 <= r['S'][t] <= So[t] + 1):
-            bad.append(('myopic-S-bounds', 't=%d: S_t=%r outside [S_underbar-1, S_overbar+1] = [%r, %r]' % (t, r['S'][t], float(Su[t] - 1), float(So[t] + 1))))
+        tail_ok = full or not any(u >= t for u in k_rises + unreach)
+        if tail_ok and not (Su[t] - 1 <= r['S'][t]):
+            bad.append(('myopic-S-bounds' + tag, 't=%d: S_t=%r outside [S_underbar-1, S_overbar+1] = [%r, %r]' % (t, r['S'][t], float(Su[t] - 1), float(So[t] + 1))))
+        elif not (r['S'][t] <= So[t] + 1):
+            bad.append(('myopic-S-bounds' + tag, 't=%d: S_t=%r outside [S_underbar-1, S_overbar+1] = [%r, %r]' % (t, r['S'][t], float(Su[t] - 1), float(So[t] + 1))))
         if K[t] == 0 and r['s'][t] != r['S'][t]: continue     # float near-tie artefact, handled (margin rule) by the K=0 monitor
         # s_t is a floor of a level defined through G(S_t) + K with S_t itself rounded to the grid: allow two grid units
-        if not np.isnan(so[t]) and not (su[t] - 2 <= r['s'][t] <= so[t] + 2):
-            bad.append(('myopic-s-bounds', 't=%d: s_t=%r outside [s_underbar-2, s_overbar+2] = [%r, %r]' % (t, r['s'][t], float(su[t] - 2), float(so[t] + 2))))
+        if tail_ok and not (su[t] - 2 <= r['s'][t]):
+            bad.append(('myopic-s-bounds' + tag, 't=%d: s_t=%r outside [s_underbar-2, s_overbar+2] = [%r, %r]' % (t, r['s'][t], float(su[t] - 2), float(so[t] + 2))))
+        elif not np.isnan(so[t]) and not (r['s'][t] <= so[t] + 2):
+            rise = ' (K_t=%r < gamma_t K_{t+1}=%r: documented as None/invalid in such a period, yet a number is reported)' % (K[t], g[t] * K[t + 1]) if t in k_rises else ''
+            bad.append(('myopic-s-bounds' + ('|s_overbar-claimed-where-fixed-cost-rises' if t in k_rises else tag),
+                        't=%d: s_t=%r outside [s_underbar-2, s_overbar+2] = [%r, %r]%s' % (t, r['s'][t], float(su[t] - 2), float(so[t] + 2), rise)))
+        if not full and t in k_rises and np.isnan(so[t]): chk.count('myopic=s_overbar-not-claimed(K rises in t)')
     return bad
 
 
@@ -590,8 +661,8 @@ def case_key(c, r):
                                 [spec_of(c, t) for t in range(1, c['T'] + 1)], r['xr'][0], r['xr'][-1], c['mode'], c.get('policy')]), sort_keys=True)
 
 
-def explore(chk, n, tmax, do_model=True, malformed_rate=0.08):
-    cases = [gen_case(chk.rng, tmax, malformed_rate) for _ in range(n)]
+def explore(chk, n, tmax, do_model=True, malformed_rate=0.08, gen=None):
+    cases = [(gen or gen_case)(chk.rng, tmax, malformed_rate) for _ in range(n)]
     todo = []
     for c in cases:
         T = c['T']
@@ -613,6 +684,7 @@ def explore(chk, n, tmax, do_model=True, malformed_rate=0.08):
         chk.count('K=0' if all(v == 0 for v in norm_list(c['K'], T)[1:]) else 'K>0')
         if c.get('matched'): chk.count('demand_list=moment-matched-neighbours')
         if c.get('K_jump'): chk.count('K=jump-up-with-cheap-holding')
+        if c.get('myopic_stream'): chk.count('myopic_stream_K_profile=%s' % c['myopic_stream'])
         if not r['ok'] and r['kind'] == 'IndexError' and c['IL'] != 0.0:
             # initial_inventory_level outside the grid: cost_matrix[1, int(IL) - x_min] does not exist; the property speaks about the grid only
             c0 = dict(c, IL=0.0); r0 = call_impl(impl_kwargs(c0))
@@ -651,6 +723,8 @@ def run(chk):
     chk.proof()
     n, tmax = (40, 4) if chk.tier == 'quick' else (240, 8)
     explore(chk, n, tmax)
+    # second stream (oracles only, not compared with the model): period-varying fixed costs on which myopic_bounds' claims are sharp
+    explore(chk, 24 if chk.tier == 'quick' else 120, tmax, do_model=False, malformed_rate=0.0, gen=gen_myopic_case)
     if (chk.broken or chk.mismatches) and not chk.fails:
         explore(chk, 6 * n if chk.tier == 'quick' else n, tmax, do_model=False, malformed_rate=0.03)
 
